@@ -295,6 +295,8 @@ func predicate(id int) func(int, error) bool {
 
 // applyConds registers a condition list "I<id>,T<ty>,U<ty>,R<v>,P<id>" in order. Consecutive error (resp. type) conditions
 // are registered with ONE variadic call, as users do (HandleErrors(a, b, c)). U<ty> is the pointer form of the type target.
+var errDecoyTarget = errors.New("decoy target written into the caller's slice after the registration")
+
 func applyConds(text string, onErrs func(...error), onTypes func(...any), onRes func(int), onPred func(func(int, error) bool)) {
 	if text == "-" || text == "" {
 		return
@@ -304,10 +306,17 @@ func applyConds(text string, onErrs func(...error), onTypes func(...any), onRes 
 	flush := func() {
 		if len(errs) > 0 {
 			onErrs(errs...)
+			// the caller's slice is the caller's: what it does with it afterwards must not reach the policy that was told the targets
+			for i := range errs {
+				errs[i] = errDecoyTarget
+			}
 			errs = nil
 		}
 		if len(types) > 0 {
 			onTypes(types...)
+			for i := range types {
+				types[i] = errDecoyTarget
+			}
 			types = nil
 		}
 	}
